@@ -246,7 +246,7 @@ theorem step_ops {w s l s'} (hs : step w s l = some s') (hl : l.isOpEdge = false
   case streamReady => exact stepStreamReady_ops hs
   case streamEnd => exact stepStreamEnd_ops hs
   case taskDone => exact stepTaskDone_ops hs
-  case quiescent => simp at hs; subst hs; exact .of_eq rfl
+  case quiescent => simp only [stepQuiescent] at hs; split at hs <;> simp at hs; subst hs; exact .of_eq rfl
   case tDeq => exact stepDeq_ops hs
   case tChanEnd => exact stepChanEnd_ops hs
   case tStreamEnd => exact stepStreamEndTau_ops hs
